@@ -6,6 +6,7 @@ import (
 	_ "verif/c04"
 	_ "verif/c08"
 	_ "verif/c09"
+	_ "verif/c10"
 	_ "verif/c14"
 	_ "verif/c15"
 )
